@@ -62,7 +62,7 @@ theorem entOf2_modelled (e : Nat) (ent : Ent) (h : entOf2 e = some ent) (he : un
   · unfold uncondEntropy at he; omega
 
 theorem cfgOfHeader2_spec (h : Header.Header) (sb : Bool) (c : Cfg2) (hc : cfgOfHeader2 h sb = some c) :
-    c.ck = 32 * h.ckSize ∧ c.skipBlocks = sb ∧ entOf2 h.entropyType = some c.ent ∧
+    c.ck = 32 * h.ckSize ∧ c.skipBlocks = sb ∧ c.bs = some h.blockSize ∧ entOf2 h.entropyType = some c.ent ∧
       ∃ ks, newSeq2 h.transformType h.entropyType = some ks ∧ c.trs = kindTrs ks ∧ ks.length ≤ 8 := by
   unfold cfgOfHeader2 at hc
   cases h1 : newSeq2 h.transformType h.entropyType with
@@ -74,7 +74,7 @@ theorem cfgOfHeader2_spec (h : Header.Header) (sb : Bool) (c : Cfg2) (hc : cfgOf
       rw [h1, h2] at hc
       simp at hc
       subst hc
-      refine ⟨rfl, rfl, rfl, ks, rfl, rfl, ?_⟩
+      refine ⟨rfl, rfl, rfl, rfl, ks, rfl, rfl, ?_⟩
       rw [kindsOfTokens_length _ _ _ _ h1]
       exact seqTokens_length _
 
